@@ -58,6 +58,7 @@ type k11Op struct {
 	EF    int    `json:"ef,omitempty"`
 	Cnt   int    `json:"cnt,omitempty"`
 	Rc    int    `json:"rc,omitempty"`
+	UF    int    `json:"uf,omitempty"` // unlock flag: 0x01 unlock-first-when-LockId-holds-nothing, 0x02 cancel-wait
 	V     *aVal  `json:"v,omitempty"`
 	N     int    `json:"n,omitempty"`     // tick seconds
 	Fault string `json:"fault,omitempty"` // release: "" | file | data
@@ -75,7 +76,7 @@ func (o k11Op) String() string {
 		}
 		return s
 	case "unlock":
-		return fmt.Sprintf("unlock c%d k%d id%d rcount=%d", o.C, o.Key, o.Id, o.Rc)
+		return fmt.Sprintf("unlock c%d k%d id%d rcount=%d flag=%#x", o.C, o.Key, o.Id, o.Rc, o.UF)
 	case "tick":
 		return fmt.Sprintf("tick %d", o.N)
 	case "release":
@@ -205,22 +206,23 @@ func (k *k11Key) removeWaiter(r *k11Req) {
 }
 
 type k11Info struct {
-	parkPhases, parkedWithBuffered, parkHookBlocks int
-	ackReqs, ackSucceeded, ackFresh, ackFromQueue  int
-	ackFailedWrite, ackFailedData, ackTimedOut     int
-	ackWaitingLock, ackWaitingUnlock               int
-	failedWithValue, failedWithValueAndWaiter      int
-	valueRestoreChecked, valueRestoreSnapChecked   int
-	waitersServedAfterFailure, wakeChecks          int
-	staleWakeSkips, ambiguousValue                 int
-	succPreValueChecked, unlockAfterAck, reentrant int
-	failResults                                    map[string]bool
-	valueKindsFailed                               map[string]bool
-	holdPhases, pendingMax, queuedBehindPending    int
-	dataFaultSucceeded, dataFaultFailed            int
-	knownReentrant, knownLateReply                 int
-	skippedDupQueued, excludedRollback             int
-	excludedBytesOnArray, keyFreedWithFailure      int
+	unlockFirst, unlockFirstPending, cancelledWaiters int
+	parkPhases, parkedWithBuffered, parkHookBlocks    int
+	ackReqs, ackSucceeded, ackFresh, ackFromQueue     int
+	ackFailedWrite, ackFailedData, ackTimedOut        int
+	ackWaitingLock, ackWaitingUnlock                  int
+	failedWithValue, failedWithValueAndWaiter         int
+	valueRestoreChecked, valueRestoreSnapChecked      int
+	waitersServedAfterFailure, wakeChecks             int
+	staleWakeSkips, ambiguousValue                    int
+	succPreValueChecked, unlockAfterAck, reentrant    int
+	failResults                                       map[string]bool
+	valueKindsFailed                                  map[string]bool
+	holdPhases, pendingMax, queuedBehindPending       int
+	dataFaultSucceeded, dataFaultFailed               int
+	knownReentrant, knownLateReply                    int
+	skippedDupQueued, excludedRollback                int
+	excludedBytesOnArray, keyFreedWithFailure         int
 	// cluster
 	ackFramesForwarded, ackFramesNegated, ackFramesDropped, ackFramesDelayed int
 	decidedByFollower, demotions, demotedPending, failedByFollower           int
@@ -452,7 +454,7 @@ func (e *k11Env) onReply(client int, cmd *protocol.LockCommand, result uint8, lc
 	if r.Op.K == "lock" {
 		e.onLockReply(k, r, &rp)
 	} else {
-		e.onUnlockReply(k, r, &rp)
+		e.onUnlockReply(k, r, &rp, cmd.LockId)
 	}
 }
 
@@ -710,6 +712,17 @@ func (e *k11Env) onLockReply(k *k11Key, r *k11Req, rp *k11Reply) {
 			}
 			r.State = k11Ended
 		}
+	case protocol.RESULT_UNLOCK_ERROR:
+		if r.State == k11Queued {
+			// cancelled by a cancel-wait unlock; no wake-up pass follows (same situation as a waiter's timeout)
+			k.removeWaiter(r)
+			k.stepLeaves++
+			k.staleWake = true
+			e.info.cancelledWaiters++
+		} else {
+			e.viol("C11:ledger", "lock request #%d answered UNLOCK_ERROR in state %d", r.Idx, r.State)
+		}
+		r.State = k11Ended
 	case protocol.RESULT_LOCK_ACK_WAITING:
 		if h == nil || !h.pending {
 			e.viol("C11:ack-waiting-without-pending", "lock request #%d (%v) was answered LOCK_ACK_WAITING but no hold of that LockId is awaiting acknowledgement", r.Idx, r.Op)
@@ -726,8 +739,17 @@ func (e *k11Env) onLockReply(k *k11Key, r *k11Req, rp *k11Reply) {
 	}
 }
 
-func (e *k11Env) onUnlockReply(k *k11Key, r *k11Req, rp *k11Reply) {
+func (e *k11Env) onUnlockReply(k *k11Key, r *k11Req, rp *k11Reply, replyId [16]byte) {
 	h := k.holder(r.LockId)
+	first := false
+	if h == nil && r.Op.UF&0x01 != 0 && replyId != r.LockId {
+		// unlock-first: the LockId holds nothing, the server picked the key's oldest holder and answers under its LockId
+		h = k.holder(replyId)
+		first = h != nil
+		if first {
+			e.info.unlockFirst++
+		}
+	}
 	r.State = k11Ended
 	switch rp.Result {
 	case protocol.RESULT_SUCCED:
@@ -739,7 +761,12 @@ func (e *k11Env) onUnlockReply(k *k11Key, r *k11Req, rp *k11Reply) {
 			e.viol("C11:unlock-of-pending-hold-succeeded", "unlock #%d of a hold that is still awaiting acknowledgement (request #%d) was answered SUCCED instead of LOCK_ACK_WAITING", r.Idx, h.req.Idx)
 			h.req.State = k11Ended
 		}
-		if r.Op.Rc > 0 && h.depth > 1 {
+		if first {
+			if rp.LRCount > 0 { // partial release under the holder's own terms
+				h.depth = int(rp.LRCount)
+				return
+			}
+		} else if r.Op.Rc > 0 && h.depth > 1 {
 			h.depth--
 			return
 		}
@@ -920,6 +947,13 @@ func (e *k11Env) send(op k11Op) {
 	e.mu.Lock()
 	if h := k.holder(r.LockId); h != nil && h.pending && (e.stuck == nil || e.stuck()) && e.inst.slock.state == STATE_LEADER {
 		r.expectAW = true
+	} else if h == nil && op.K == "unlock" && op.UF&0x01 != 0 && before != nil && len(before.Holders) > 0 && before.Holders[0].AckCount != 0xff &&
+		(e.stuck == nil || e.stuck()) && e.inst.slock.state == STATE_LEADER {
+		// unlock-first falls back to the key's oldest holder, which is awaiting acknowledgement
+		if fh := k.holder(before.Holders[0].Id); fh != nil && fh.pending {
+			r.expectAW = true
+			e.info.unlockFirstPending++
+		}
 	}
 	if op.K == "lock" && op.V != nil {
 		if before == nil {
@@ -947,6 +981,9 @@ func (e *k11Env) send(op k11Op) {
 	}
 	cmd.RequestId = aReqId(r.Idx)
 	cmd.Flag = 0
+	if op.K == "unlock" {
+		cmd.Flag = uint8(op.UF)
+	}
 	cmd.DbId = 0
 	cmd.LockId, cmd.LockKey = r.LockId, r.Key
 	cmd.Timeout, cmd.TimeoutFlag = uint16(op.T), 0
